@@ -393,7 +393,7 @@ impl FieldElement for Fp12 {
 
 impl Fp12 {
     pub(crate) fn pow(&self, e: &U256) -> Self {
-        assert!(u256_cmp(e, &SM9_N_MINUS_ONE) < 0);
+        assert!(u256_cmp(e, &SM9_N_MINUS_ONE) <= 0);
         let mut w = 0_u64;
         let mut t = Fp12 {
             c0: Fp4::mont_one(),
